@@ -28,7 +28,7 @@ def write_cg_fragment(R, sub, names, desc):
     return molgen.write_base(R, sub, names, tokens=tokens, late_tokens=late)[1:-1]
 
 
-def group_level(R, base, names, prefix, labels, kinds=('$', '><'), p_share=0.0):
+def group_level(R, base, names, prefix, labels, kinds=('$', '><'), p_share=0.0, p_virtual=0.0):
     """group the nodes of `base` (edges carry 'order') into connected groups.
     A crossing edge is written as a labelled descriptor pair, or - with probability p_share - by
     SHARING its end node b: b is copied into the other group (with all of b's edges into that
@@ -96,6 +96,19 @@ def group_level(R, base, names, prefix, labels, kinds=('$', '><'), p_share=0.0):
         bump(ga, gb)
     if any(o > 4 for _, _, o in up.edges(data='order')):
         return None
+    # fragment-less (virtual) nodes and order-0 edges inside the fragments of this level
+    nvirtual = 0
+    for g in range(k):
+        if R.chance(p_virtual):
+            v = 200000 + nvirtual
+            nvirtual += 1
+            subnames[v] = R.choice(['V', 'W'])
+            subs[g].add_node(v)
+            subs[g].add_edge(v, R.choice(sorted(n for n in subs[g].nodes if n < 100000)), order=0)
+        elif R.chance(p_virtual) and len(subs[g]) >= 3:
+            a, b = R.sample(sorted(n for n in subs[g].nodes), 2)
+            if not subs[g].has_edge(a, b):
+                subs[g].add_edge(a, b, order=0)
     upnames = {g: '%s%d' % (prefix, g) for g in range(k)}
     # a fragment name may be reused on another level: some groups take the name of one of their members
     taken = set(upnames.values())
@@ -110,10 +123,10 @@ def group_level(R, base, names, prefix, labels, kinds=('$', '><'), p_share=0.0):
     for g in range(k):
         defs.append('#%s=%s' % (upnames[g], write_cg_fragment(R, subs[g], subnames, desc[g])))
     R.shuffle(defs)
-    return up, upnames, '{' + ','.join(defs) + '}', owner, nshared
+    return up, upnames, '{' + ','.join(defs) + '}', owner, nshared + 0 * nvirtual
 
 
-def add_levels(R, info, nlevels, p_share=0.0):
+def add_levels(R, info, nlevels, p_share=0.0, p_virtual=0.0):
     """info from molgen.build_cgsmiles -> (full multi-level string, list of level blocks top-down,
     number of groups per level, number of shared nodes) or None"""
     base = info['base']
@@ -124,7 +137,7 @@ def add_levels(R, info, nlevels, p_share=0.0):
     shared = 0
     cur, curnames = base, names
     for lv in range(nlevels):
-        r = group_level(R, cur, curnames, 'G%d_' % lv, labels, p_share=p_share)
+        r = group_level(R, cur, curnames, 'G%d_' % lv, labels, p_share=p_share, p_virtual=p_virtual)
         if r is None:
             return None
         cur, curnames, block, _owner, nsh = r
@@ -260,7 +273,8 @@ def gen_fragset_string(R, tier, all_atom=None):
 # ----------------------------------------------------------------------------------------
 # combined
 # ----------------------------------------------------------------------------------------
-def gen_cut_string(R, tier, min_frags=1, with_levels=0, classes=None, weights=False, shared_atoms=False):
+def gen_cut_string(R, tier, min_frags=1, with_levels=0, classes=None, weights=False, shared_atoms=False,
+                   virtual_in_levels=0.0):
     big = (tier == 'thorough') and R.chance(0.3)
     m, cname = molgen.gen_mol_class(R, big=big, classes=classes)
     fclass = R.choice(['one', 'two', 'few', 'many'])
@@ -303,13 +317,16 @@ def gen_cut_string(R, tier, min_frags=1, with_levels=0, classes=None, weights=Fa
             exp.append([list(info['posmap'][i]), want])
         case['expect_annotations'] = exp
     if with_levels:
-        r = add_levels(R, info, with_levels, p_share=R.choice([0.0, 0.0, 0.3, 0.6]) if not shared_atoms else R.choice([0.3, 0.6, 1.0]))
+        r = add_levels(R, info, with_levels, p_share=R.choice([0.0, 0.0, 0.3, 0.6]) if not shared_atoms else R.choice([0.3, 0.6, 1.0]),
+                       p_virtual=virtual_in_levels)
         if r is None:
             return None
         s2, blocks, groups, nshared = r
         case.update(input=s2, kind='levels', nlevels=1 + with_levels, groups=groups)
         if nshared:
             feats.add('shared_node_at_coarse_level')
+        if '[#V]' in s2 or '[#W]' in s2:
+            feats.add('virtual_node_inside_a_fragment')
         feats.add('levels:%d' % (1 + with_levels))
         if any(g >= 2 for g in groups):
             feats.add('multi_group_level')
@@ -386,5 +403,6 @@ def gen_resolvable(R, tier, kinds=('cut', 'levels', 'fragset')):
     if kind == 'cut':
         return gen_cut_string(R, tier)
     if kind == 'levels':
-        return gen_cut_string(R, tier, min_frags=2, with_levels=R.choice([1, 1, 2, 3]), shared_atoms=R.chance(0.25))
+        return gen_cut_string(R, tier, min_frags=2, with_levels=R.choice([1, 1, 2, 3]), shared_atoms=R.chance(0.25),
+                              virtual_in_levels=R.choice([0.0, 0.0, 0.3]))
     return gen_fragset_string(R, tier)
